@@ -1459,6 +1459,10 @@ class X:
                 if isinstance(kv, VObj) and kv.cls == 'StrDict':
                     kwargs.update(kv.fields)
                     continue
+                if isinstance(kv, VDictLit):
+                    # f(**{k: v ...}) with symbolic keys: handed to the callee's stub / hook as one value under the key '**'
+                    kwargs['**'] = kv
+                    continue
                 raise Unsupported('**kwargs call')
             kwargs[k.arg] = self.eval(k.value)
         return args, kwargs
